@@ -495,8 +495,18 @@ impl Engine {
     pub fn reopen(&mut self, strict: bool, what: &str) -> Result<(), Fail> {
         self.close_all_handles()?;
         self.trace.push(format!("reopen(strict={}) [{}]", strict, what));
-        let bytes = self.snapshot();
-        let io = Io::from_bytes(bytes);
+        let io = if let Some(p) = self.oracles.file_path.clone() {
+            // real file: drop the live object (closes its handle), open the path again
+            self.cfb = None;
+            let f = std::fs::OpenOptions::new().read(true).write(true).open(&p).map_err(|e| Fail::new("harness|file", e.to_string()))?;
+            Io::from_file(f, p)
+        } else {
+            let mut io = Io::from_bytes(self.snapshot());
+            if let Some(c) = &self.ctl {
+                io = io.with_ctl(c.clone());
+            }
+            io
+        };
         let peer = io.peer();
         let mb = self.max_buf;
         let res = guard("open", || open_options(mb, strict).open_with(io))?;
